@@ -24,6 +24,11 @@ func SetApprove(cfg *program.Config, device, policy string, failed bool) {
 	result := "OK"
 	if failed {
 		result = "FAILED"
+		// The record of a newer successful approve gets lost.
+		// An older compare result must not become valid again.
+		if v.Approve.Result == "OK" && v.Compare.Time < v.Approve.Time {
+			v.Compare = action{}
+		}
 	}
 	v.Approve = action{result, policy, mytime.Now().Unix()}
 	write(cfg, device, v)
